@@ -692,3 +692,54 @@ func constStringSet(p *eng.Prog, info *types.Info, body ast.Node, e ast.Expr) ([
 	}
 	return out, true
 }
+
+// sharedSliceSource looks at every assignment of the slice variable v in body and returns one whose value is not
+// owned by the current call: owned are nil, make, composite literals, the results of allocating library calls
+// (os.Environ, slices.Clone, slices.Concat), other locals that are owned, and append onto v itself or onto an owned
+// slice. A field, a package variable, a re-slice of either (buf[:0]) or an unknown call result is not owned: the
+// caller would share its backing array with other calls.
+func sharedSliceSource(info *types.Info, body ast.Node, v *types.Var) ast.Expr {
+	var isFresh func(e ast.Expr, depth int) bool
+	isFresh = func(e ast.Expr, depth int) bool {
+		e = ast.Unparen(e)
+		if eng.IsNil(info, e) {
+			return true
+		}
+		if depth > 3 {
+			return false
+		}
+		switch t := e.(type) {
+		case *ast.CompositeLit:
+			return true
+		case *ast.CallExpr:
+			if builtinCall(info, t, "make") != nil {
+				return true
+			}
+			if ap := builtinCall(info, t, "append"); ap != nil && len(ap.Args) >= 1 {
+				return eng.SelObj(info, ap.Args[0]) == types.Object(v) || isFresh(ap.Args[0], depth+1)
+			}
+			o := eng.CalleeOf(info, t)
+			return eng.IsPkgFunc(o, "os", "Environ") || eng.IsPkgFunc(o, "slices", "Clone") || eng.IsPkgFunc(o, "slices", "Concat")
+		case *ast.Ident:
+			if v2, isV2 := info.ObjectOf(t).(*types.Var); isV2 && !v2.IsField() && isDeclaredIn(info, body, v2) {
+				if v2 == v {
+					return true
+				}
+				es := eng.AssignedExprs(info, body, v2)
+				for _, x := range es {
+					if !isFresh(x, depth+1) {
+						return false
+					}
+				}
+				return true // declared without a value: nil
+			}
+		}
+		return false
+	}
+	for _, e := range eng.AssignedExprs(info, body, v) {
+		if !isFresh(e, 0) {
+			return e
+		}
+	}
+	return nil
+}
